@@ -60,6 +60,87 @@ def build_pre(desc, order=None):
     return c, (lambda: c.set_type(name, t))
 
 
+def scramble(obj, _depth=0):
+    """Edit, in place, whatever a library call returned (circuits anywhere inside tuples / lists / dicts; plain
+    containers are emptied afterwards) - what a caller is free to do with a result it owns."""
+    if _depth > 3 or obj is None or isinstance(obj, (str, int, float, bool)):
+        return
+    g = getattr(obj, "graph", None)
+    if g is not None and hasattr(obj, "blackboxes"):
+        for n in sorted(g.nodes, key=str):
+            t = g.nodes[n].get("type")
+            if t in FLIP:
+                g.nodes[n]["type"] = FLIP[t]
+                break
+        for n in sorted(g.nodes, key=str)[:2]:
+            g.nodes[n]["output"] = not g.nodes[n].get("output", False)
+        g.add_node("zz_scramble", type="input", output=True)
+        plain = [n for n in sorted(g.nodes, key=str) if g.nodes[n].get("type") not in ("bb_input", "bb_output") and n != "zz_scramble"]
+        if plain:
+            g.remove_node(plain[-1])
+        edges = sorted(g.edges, key=str)
+        if edges:
+            g.remove_edge(*edges[0])
+        for k in sorted(obj.blackboxes)[:1]:
+            obj.blackboxes.pop(k)
+        return
+    if isinstance(obj, dict):
+        for v in list(obj.values()):
+            scramble(v, _depth + 1)
+        obj.clear()
+    elif isinstance(obj, list):
+        for v in list(obj):
+            scramble(v, _depth + 1)
+        del obj[:]
+    elif isinstance(obj, set):
+        for v in list(obj):
+            scramble(v, _depth + 1)
+        obj.clear()
+    elif isinstance(obj, tuple):
+        for v in obj:
+            scramble(v, _depth + 1)
+    elif hasattr(obj, "clauses") and isinstance(getattr(obj, "clauses"), list):
+        del obj.clauses[:]
+
+
+def call_with_history(desc, fn, variant=None):
+    """Build ``desc`` and return (circuit, fn(circuit)) after a history on that one circuit object:
+
+      None    : plain
+      "rev"   : nodes inserted in reverse order
+      "stale" : fn is first called while one gate still carries the dual type, the gate is repaired in place
+                (set_type), and fn is called again - the second result is returned
+      "alias" : fn is called, everything it returned is scrambled in place, and fn is called again
+
+    In every case the circuit handed to the judged call is exactly the circuit of ``desc``, so the caller's
+    oracle does not change.  Exceptions of the first call are swallowed (the judged call decides)."""
+    if variant in (None, "rev"):
+        c = build(desc, order=variant)
+        return c, fn(c)
+    if variant == "stale":
+        c, finish = build_pre(desc)
+        if c is None:
+            c = build(desc)
+            return c, fn(c)
+        try:
+            fn(c)
+        except Exception:  # noqa: BLE001
+            pass
+        finish()
+        return c, fn(c)
+    if variant == "alias":
+        c = build(desc)
+        try:
+            scramble(fn(c))
+        except Exception:  # noqa: BLE001
+            pass
+        return c, fn(c)
+    raise ValueError(variant)
+
+
+VARIANTS = (None, "rev", "stale", "alias")
+
+
 def build_raw(desc, cg):
     """Build directly on a networkx graph, the way Circuit(graph=g) users and the fast parser do: nodes that are
     not outputs carry NO 'output' attribute at all."""
